@@ -9,6 +9,7 @@ CONSTANTS acked,      \* set of acknowledged batches [id, base, cnt] (produce re
           hwRegressed,   \* TRUE once a store update lowered storeNext
           nextRegressed, \* TRUE once the log's next offset decreased while the broker was up
           rfail,      \* TRUE iff opening the partition after a restart failed
+          idxLost,    \* TRUE iff the harness/model deleted an index object (an injected loss, not an interrupted upload)
           up,         \* broker holds an open log for the partition
           memNext,    \* next offset the open log will assign
           hwMax,      \* highest end offset ever published (shown to consumers)
@@ -32,7 +33,7 @@ C02_BaseIsStored == \A b \in acked : \A o \in Indexed : \A j \in 1..Len(o.batche
 C05_Monotone == ~hwRegressed
 C05_NotAhead == storeNext <= S3Last + 1
 
-C06_NoHide == ~rfail
+C06_NoHide == rfail => idxLost   \* leftovers of interrupted uploads never make the partition unopenable
 C06_NoReuse == up => (memNext >= hwMax /\ \A b \in acked : Last(b) < memNext)
 
 \* reads
